@@ -33,7 +33,7 @@ STUB = ['Verilog side: dsim/vsim (IEEE 1364-2005 subset event simulator written 
 ASSUMPTIONS = ['vsim reading of IEEE 1364-2005 sizing, x-propagation and scheduling (see dsim/vsim/README.md, selftest)',
                'single clock domain; divisors of Div/Mod are OR-ed with 1 (division by zero is documented as nondeterministic)',
                'designs containing rotate blocks are not emittable (generator refuses) and are kept out']
-PROBES = ['generated', 'elaborated', 'shared_module_reused', 'reg_reset_value', 'memory_body', 'race_probe', 'hierarchy', 'wide_gt_64', 'x_seen_powerup']
+PROBES = ['generated', 'elaborated', 'shared_module_reused', 'reg_reset_value', 'memory_body', 'race_probe', 'hierarchy', 'wide_gt_64', 'transpiled_block']
 
 
 def emittable_kinds():
@@ -139,6 +139,8 @@ def cosim(scn, log, st, zero_powerup=False, collect_all=False):
         st.probe('reg_reset_value')
     if 'SynchronousMemory' in kinds:
         st.probe('memory_body')
+    if any('transpiled' in KINDS[k].tags for k in kinds):
+        st.probe('transpiled_block')
     for kn in ('Add', 'Abs', 'Neg', 'Sign', 'BufEnable', 'Reg'):
         if kinds.count(kn) >= 2:
             st.probe('shared_module_reused')
